@@ -10,13 +10,13 @@ var l1Components = map[string]string{
 	"x/ophost keeper, msg server, querier, genesis": "real",
 	"ophost/types/hook.BridgeHook":                  "real",
 	"x/auth, x/bank keepers":                        "real",
-	"baseapp (runTx, gas, panic recovery, commit)":   "real",
-	"IAVL commit multistore on MemDB":                "real",
-	"consensus engine":                               "stub: the scheduler is the single proposer",
-	"tx signature verification":                      "stub: signer = declared signer field",
-	"community pool keeper":                          "stub: store-backed bank transfer to the distribution module account",
-	"IBC channel / perm keepers":                     "stub: store-backed tables (next send sequence, admin)",
-	"L2 + executor":                                  "stub: fabricated withdrawal sets committed by the independent prover (opsim/prover)",
+	"baseapp (runTx, gas, panic recovery, commit)":  "real",
+	"IAVL commit multistore on MemDB":               "real",
+	"consensus engine":                              "stub: the scheduler is the single proposer",
+	"tx signature verification":                     "stub: signer = declared signer field",
+	"community pool keeper":                         "stub: store-backed bank transfer to the distribution module account",
+	"IBC channel / perm keepers":                    "stub: store-backed tables (next send sequence, admin)",
+	"L2 + executor":                                 "stub: fabricated withdrawal sets committed by the independent prover (opsim/prover)",
 }
 
 var stdPeriods = []time.Duration{time.Second, 1500 * time.Millisecond, 10 * time.Second, time.Hour, 7 * 24 * time.Hour}
@@ -44,9 +44,9 @@ func init() {
 		RegFee:  true,
 		NonTriv: func(w *l1World) bool { return w.succ["deposit"] >= 2 && len(w.m.Bridges) >= 1 }}
 	core.Register(&core.Scenario{ID: "C10", Level: "exploration", Run: runL1(c10), Components: l1Components,
-		Rule: "seeded histories of bridge creation and deposits over existing and not-yet-created bridge ids (amounts 0..2^63, malformed recipients, payloads), lock-step ledger/sequence model, events and queries compared after every block; non-trivial = at least 2 successful deposits; distinct = fingerprint of step kinds + abstract state",
+		Rule:        "seeded histories of bridge creation and deposits over existing and not-yet-created bridge ids (amounts 0..2^63, malformed recipients, payloads), lock-step ledger/sequence model, events and queries compared after every block; non-trivial = at least 2 successful deposits; distinct = fingerprint of step kinds + abstract state",
 		Assumptions: []string{"outer tx signatures are not verified; the signer is the declared signer field", "single block proposer"},
-		QuickRuns: 4000, QuickSecs: 75, ThoroughRuns: 60000, ThoroughSecs: 600,
+		QuickRuns:   4000, QuickSecs: 75, ThoroughRuns: 60000, ThoroughSecs: 600,
 		RequiredProbes: []string{"reject.deposit.insufficient-funds"}})
 
 	l1Assume := []string{"outer tx signatures are not verified; the signer is the declared signer field", "single block proposer", "the L2 side is represented by fabricated withdrawal sets committed by the independent prover"}
@@ -55,7 +55,7 @@ func init() {
 		W:       map[string]int{"create": 8, "deposit": 30, "send": 10, "propose": 14, "delete": 4, "claim": 30, "updProposer": 2, "updChallenger": 2, "batchInfo": 1, "params": 1, "multi": 8},
 		NonTriv: func(w *l1World) bool { return w.succ["deposit"] >= 1 && w.succ["claim"] >= 1 && len(w.m.Bridges) >= 2 }}
 	core.Register(&core.Scenario{ID: "C01", Level: "exploration", Run: runL1(c01), Components: l1Components, Assumptions: l1Assume,
-		Rule: "seeded multi-bridge histories (create, deposit, propose, delete, claim incl. cross-bridge replays, role updates, third-party sends to escrows) with crashes, dependency faults on the bank/community-pool seams and out-of-gas aborts; after every block the bank's complete balance table and every bridge's exported state are compared with a ledger model; non-trivial = >=2 bridges, >=1 successful deposit and >=1 successful claim",
+		Rule:      "seeded multi-bridge histories (create, deposit, propose, delete, claim incl. cross-bridge replays, role updates, third-party sends to escrows) with crashes, dependency faults on the bank/community-pool seams and out-of-gas aborts; after every block the bank's complete balance table and every bridge's exported state are compared with a ledger model; non-trivial = >=2 bridges, >=1 successful deposit and >=1 successful claim",
 		QuickRuns: 3000, QuickSecs: 75, ThoroughRuns: 50000, ThoroughSecs: 700,
 		RequiredProbes: []string{"reject.claim.escrow-underfunded", "claim.perturbed-rejected"}})
 
@@ -63,7 +63,7 @@ func init() {
 		W:       map[string]int{"create": 4, "deposit": 14, "propose": 16, "delete": 8, "claim": 60, "updProposer": 1, "multi": 5, "send": 4},
 		NonTriv: func(w *l1World) bool { return w.succ["claim"] >= 2 }}
 	core.Register(&core.Scenario{ID: "C02", Level: "exploration", Run: runL1(c02), Components: l1Components, Assumptions: l1Assume,
-		Rule: "seeded histories of propose / delete / re-propose (cumulative trees carrying earlier leaves) and claims of the same withdrawal by several submitters against every output that contains it, same block and across blocks, with crash between FinalizeBlock and Commit and block replay; oracle: per (bridge, withdrawal) at most one successful finalisation, Claimed query true exactly for paid withdrawals, ledger equality; non-trivial = >=2 successful claims",
+		Rule:      "seeded histories of propose / delete / re-propose (cumulative trees carrying earlier leaves) and claims of the same withdrawal by several submitters against every output that contains it, same block and across blocks, with crash between FinalizeBlock and Commit and block replay; oracle: per (bridge, withdrawal) at most one successful finalisation, Claimed query true exactly for paid withdrawals, ledger equality; non-trivial = >=2 successful claims",
 		QuickRuns: 2000, QuickSecs: 75, ThoroughRuns: 50000, ThoroughSecs: 700,
 		RequiredProbes: []string{"reject.claim.already-claimed"}})
 
@@ -71,7 +71,7 @@ func init() {
 		W:       map[string]int{"create": 4, "deposit": 14, "propose": 16, "delete": 5, "claim": 70, "multi": 6, "send": 5},
 		NonTriv: func(w *l1World) bool { return w.succ["claim"] >= 1 && w.r.Probes["claim.perturbed-rejected"] >= 3 }}
 	core.Register(&core.Scenario{ID: "C03", Level: "exploration", Run: runL1(c03), Components: l1Components, Assumptions: l1Assume,
-		Rule: "every valid claim is also submitted under single- and double-field perturbations (20 mutators: bit flips, swaps, other bridge / output / sequence / denom, amount +-1, *2, +2^64, proof truncation / extension / permutation, inner node or leaf as sibling, empty proof) in all oracle states; oracle: an independent verifier (opsim/prover) decides admissibility, rejected claims leave all state unchanged; non-trivial = >=1 accepted claim and >=3 rejected perturbed claims",
+		Rule:      "every valid claim is also submitted under single- and double-field perturbations (20 mutators: bit flips, swaps, other bridge / output / sequence / denom, amount +-1, *2, +2^64, proof truncation / extension / permutation, inner node or leaf as sibling, empty proof) in all oracle states; oracle: an independent verifier (opsim/prover) decides admissibility, rejected claims leave all state unchanged; non-trivial = >=1 accepted claim and >=3 rejected perturbed claims",
 		QuickRuns: 3000, QuickSecs: 75, ThoroughRuns: 50000, ThoroughSecs: 700,
 		RequiredProbes: []string{"reject.claim.proof-mismatch", "reject.claim.output-root-mismatch", "claim.perturbed-but-valid"}})
 
@@ -80,7 +80,7 @@ func init() {
 		W:       map[string]int{"burst": 5, "create": 8, "deposit": 10, "propose": 25, "delete": 20, "claim": 35, "updProposer": 3, "updChallenger": 3, "batchInfo": 3, "metadata": 2, "oracleCfg": 1, "multi": 5},
 		NonTriv: func(w *l1World) bool { return w.succ["claim"] >= 1 && w.succ["delete"] >= 1 }}
 	core.Register(&core.Scenario{ID: "C05", Level: "exploration", Run: runL1(c05), Components: l1Components, Assumptions: l1Assume,
-		Rule: "clock-centric histories: bridges offered with periods from 1 ns to 2^63-1 ns and hostile (zero / negative) ones, propose / delete / re-propose / claim / role changes along non-decreasing block times that target the instants just before, at and after each finality boundary; oracle stated in real time with an explicit 1 s ambiguity band, observations inside the band must agree with each other and finality is irreversible; non-trivial = >=1 successful claim and >=1 successful deletion",
+		Rule:      "clock-centric histories: bridges offered with periods from 1 ns to 2^63-1 ns and hostile (zero / negative) ones, propose / delete / re-propose / claim / role changes along non-decreasing block times that target the instants just before, at and after each finality boundary; oracle stated in real time with an explicit 1 s ambiguity band, observations inside the band must agree with each other and finality is irreversible; non-trivial = >=1 successful claim and >=1 successful deletion",
 		QuickRuns: 3000, QuickSecs: 75, ThoroughRuns: 50000, ThoroughSecs: 700,
 		RequiredProbes: []string{"reject.claim.not-final", "reject.delete.final-output", "time.boundary-targeted", "finality.band-observed"}})
 
@@ -88,7 +88,7 @@ func init() {
 		W:       map[string]int{"burst": 8, "create": 8, "deposit": 4, "propose": 50, "delete": 30, "claim": 8, "updProposer": 3, "updChallenger": 3, "batchInfo": 3, "multi": 6},
 		NonTriv: func(w *l1World) bool { return w.succ["propose"] >= 3 && w.succ["delete"] >= 1 }}
 	core.Register(&core.Scenario{ID: "C11", Level: "exploration", Run: runL1(c11), Components: l1Components, Assumptions: l1Assume,
-		Rule: "seeded histories of propose (right / wrong index, higher / equal / lower L2 block), delete (any index, any signer) and re-propose over several bridges with some outputs becoming final; after every block the paginated OutputProposals listing, OutputProposal(i), LastFinalizedOutput and the exported log are compared with a model log and the structural invariants are checked directly; non-trivial = >=3 accepted proposals and >=1 deletion",
+		Rule:      "seeded histories of propose (right / wrong index, higher / equal / lower L2 block), delete (any index, any signer) and re-propose over several bridges with some outputs becoming final; after every block the paginated OutputProposals listing, OutputProposal(i), LastFinalizedOutput and the exported log are compared with a model log and the structural invariants are checked directly; non-trivial = >=3 accepted proposals and >=1 deletion",
 		QuickRuns: 2000, QuickSecs: 75, ThoroughRuns: 50000, ThoroughSecs: 700,
 		RequiredProbes: []string{"reject.propose.wrong-index", "reject.propose.l2-block-not-increasing", "reject.delete.final-output", "reject.delete.index-out-of-range"}})
 
@@ -96,7 +96,7 @@ func init() {
 		W:       map[string]int{"create": 30, "metadata": 30, "updChallenger": 25, "updProposer": 5, "deposit": 3, "propose": 3},
 		NonTriv: func(w *l1World) bool { return len(w.m.Admin) >= 1 && (w.succ["metadata"]+w.succ["updChallenger"]) >= 1 }}
 	core.Register(&core.Scenario{ID: "C19", Level: "exploration", Run: runL1(c19), Components: l1Components, Assumptions: append(append([]string{}, l1Assume...), "IBC channel and perm keepers are store-backed stubs with the semantics stated in DESIGN 3.1"),
-		Rule: "histories of create-bridge / update-metadata / update-challenger over several bridges with metadata drawn from a grammar (valid lists, unknown fields, wrong types, differently-cased keys, non-JSON) and channels that are missing, fresh, in use, or administered by someone else; the k-th perm-keeper call of a message is made to fail or panic; oracle: admin table written from the property text compared after every block; non-trivial = >=1 admin granted and >=1 successful metadata/challenger update",
+		Rule:      "histories of create-bridge / update-metadata / update-challenger over several bridges with metadata drawn from a grammar (valid lists, unknown fields, wrong types, differently-cased keys, non-JSON) and channels that are missing, fresh, in use, or administered by someone else; the k-th perm-keeper call of a message is made to fail or panic; oracle: admin table written from the property text compared after every block; non-trivial = >=1 admin granted and >=1 successful metadata/challenger update",
 		QuickRuns: 3000, QuickSecs: 75, ThoroughRuns: 50000, ThoroughSecs: 700,
 		RequiredProbes: []string{"reject.hook.channel-not-grantable"}})
 }
